@@ -141,7 +141,7 @@ func c15CheckFormat(o *Out, m int64) {
 func C15(op Opts) *Out {
 	o := NewOut()
 	maxLen := 5
-	if op.Tier == "thorough" {
+	if op.Tier != "quick" {
 		maxLen = 7
 	}
 	// family 1: all strings up to maxLen over the 12-symbol alphabet
@@ -178,7 +178,7 @@ func C15(op Opts) *Out {
 		}
 	}
 	maxd := 6
-	if op.Tier == "thorough" {
+	if op.Tier != "quick" {
 		maxd = 8
 	}
 	var gen2 func(p string, n int)
